@@ -35,11 +35,11 @@ Print Assumptions C16_ring_boot.
     is probed exactly once, in non-decreasing detection order, DriverInit is called exactly for the
     drivers whose probe found hardware, in that order, and bring-up returns normally. *)
 Theorem C16_probe_order :
-  forall (registered sorted_list : list driver) (pre post : list logop),
+  forall (logo_off : bool) (registered sorted_list : list driver) (pre post : list logop),
     Permutation registered sorted_list ->
     Sorted (fun a b => (d_order a <= d_order b)%Z) sorted_list ->
     exists st probed,
-      scenario pre sorted_list post init_hal = Ok st /\
+      scenario pre sorted_list post (set_logo_off init_hal logo_off) = Ok st /\
       probes (h_trace st) = map d_id probed /\
       Permutation registered probed /\
       Sorted (fun a b => (d_order a <= d_order b)%Z) probed /\
@@ -47,7 +47,8 @@ Theorem C16_probe_order :
 Proof. exact probe_order. Qed.
 Print Assumptions C16_probe_order.
 
-(** Bring-up, for every amount and chunking of log output before and after and every driver list:
+(** Bring-up, for every amount and chunking of log output before and after, every driver list (consoles
+    with or without font / logo support) and either setting of consoleLogo on the boot command line:
     the run returns normally (no panic, in particular linkTTYToConsole never meets a nil device) and
     - the active console / terminal are the first console / first terminal (in probe order) whose
       initialisation succeeded; activeDrivers are exactly the drivers that initialised successfully;
@@ -61,9 +62,9 @@ Print Assumptions C16_probe_order.
     detected driver, its init output and the "initialized" / "init failed: <message>" line, each line
     prefixed by the PrefixWriter model. *)
 Theorem C16_bringup :
-  forall (pre : list logop) (sorted_list : list driver) (post : list logop),
+  forall (logo_off : bool) (pre : list logop) (sorted_list : list driver) (post : list logop),
     exists st a,
-      scenario pre sorted_list post init_hal = Ok st /\
+      scenario pre sorted_list post (set_logo_off init_hal logo_off) = Ok st /\
       abs_scenario pre sorted_list post init_abs = Ok a /\
       h_console st = first_id is_console sorted_list /\
       h_tty st = first_id is_tty sorted_list /\
@@ -84,9 +85,9 @@ Print Assumptions C16_bringup.
 (** A driver whose probe finds nothing or whose initialisation fails never becomes active: it is not
     in activeDrivers and is neither the active console nor the active terminal. *)
 Theorem C16_failed_never_active :
-  forall (pre : list logop) (sorted_list : list driver) (post : list logop) (st : hal) (d : driver),
+  forall (logo_off : bool) (pre : list logop) (sorted_list : list driver) (post : list logop) (st : hal) (d : driver),
     NoDup (map d_id sorted_list) -> In d sorted_list -> init_ok d = false ->
-    scenario pre sorted_list post init_hal = Ok st ->
+    scenario pre sorted_list post (set_logo_off init_hal logo_off) = Ok st ->
     ~ In (d_id d) (h_active st) /\ h_console st <> Some (d_id d) /\ h_tty st <> Some (d_id d).
 Proof. exact failed_never_active_full. Qed.
 Print Assumptions C16_failed_never_active.
